@@ -56,8 +56,17 @@ def _registry_by_ast():
 
 
 def registry():
+    """Registry entries, ordered like module_ir.PRODUCTIONS (entries for productions the
+    grammar does not have come last, in registration order): with equal production sets the
+    Lean-side comparison with the grammar is a linear list equality."""
     r = _registry_by_closure()
-    return r if r is not None else _registry_by_ast()
+    r = r if r is not None else _registry_by_ast()
+    pos = {}
+    for i, p in enumerate(module_ir.PRODUCTIONS):
+        pos.setdefault(p, i)
+    big = len(pos)
+    return [e for _, _, e in sorted(((pos.get(e[0], big), i, e) for i, e in enumerate(r)),
+                                    key=lambda t: (t[0], t[1]))]
 
 
 def lean_str(s):
@@ -112,6 +121,22 @@ def render():
     for i, (p, name, cfg) in enumerate(reg):
         lines.append("  (%s, %s, %s, %s)%s" % (
             lean_str(p.lhs), lean_list([lean_str(s) for s in p.rhs]), lean_str(name),
+            "true" if cfg else "false", "," if i + 1 < len(reg) else ""))
+    lines += ["]", ""]
+    # interned copy: kernel evaluation of the table obligations compares numbers, not strings
+    syms = sorted(set([p.lhs for p in ps] + [s for p in ps for s in p.rhs]
+                      + [p.lhs for p, _, _ in reg] + [s for p, _, _ in reg for s in p.rhs]))
+    sid = {s: i for i, s in enumerate(syms)}
+    lines += ["/-- Every grammar symbol once (sorted); `formattersN` refers to symbols by index. -/",
+              "def symbols : List String := ["]
+    for i, sname in enumerate(syms):
+        lines.append("  %s%s" % (lean_str(sname), "," if i + 1 < len(syms) else ""))
+    lines += ["]", "",
+              "/-- `formatters` with every symbol replaced by its index in `symbols`. -/",
+              "def formattersN : List (Nat × List Nat × String × Bool) := ["]
+    for i, (p, name, cfg) in enumerate(reg):
+        lines.append("  (%d, %s, %s, %s)%s" % (
+            sid[p.lhs], lean_list([str(sid[x]) for x in p.rhs]), lean_str(name),
             "true" if cfg else "false", "," if i + 1 < len(reg) else ""))
     lines += ["]", "", "end Emboss.Generated.FmtTable", ""]
     return "\n".join(lines)
